@@ -67,6 +67,7 @@ partial def pTy : Sexp → P Ty
   | .atom "bool" => pure .bool
   | .atom "str" => pure .str
   | .atom "rterr" => pure .rtErr
+  | .atom "f64" => pure .float
   | .list [.atom "int", k] => do pure (.int (← pKind k))
   | .list [.atom "named", n] => do pure (.named (← pNat n))
   | .list [.atom "ptr", t] => do pure (.ptr (← pTy t))
@@ -103,6 +104,7 @@ partial def pExpr : Sexp → P Expr
   | .list [.atom "i", k, v] => do pure (.intLit (← pKind k) (← pInt v))
   | .list [.atom "b", b] => do pure (.boolLit (← pBool b))
   | .list [.atom "s", h] => do pure (.strLit (← pBytes h))
+  | .list [.atom "f", bits] => do pure (.floatLit (← pNat bits))
   | .list [.atom "nil", .atom "ptr"] => pure (.nil .ptr)
   | .list [.atom "nil", .atom "slice"] => pure (.nil .slice)
   | .list [.atom "nil", .atom "iface"] => pure (.nil .iface)
